@@ -165,6 +165,12 @@ def run(idx: Index, rep: Report, tier: str) -> None:
         for c in walk_no_nested(uf.node):
             if isinstance(c, ast.Call) and isinstance(c.func, ast.Attribute) and c.func.attr in ("difference_update", "discard", "remove", "difference"):
                 removed |= {x.value for x in ast.walk(c) if isinstance(x, ast.Constant) and isinstance(x.value, str)}
+                # … or the set was bound to a local first: `deprecated = {…}; features.difference_update(deprecated)`
+                for a_ in c.args:
+                    if isinstance(a_, ast.Name):
+                        for b_ in walk_no_nested(uf.node):
+                            if isinstance(b_, ast.Assign) and len(b_.targets) == 1 and isinstance(b_.targets[0], ast.Name) and b_.targets[0].id == a_.id:
+                                removed |= {x.value for x in ast.walk(b_.value) if isinstance(x, ast.Constant) and isinstance(x.value, str)}
         ok = feat in removed
         rep.check(ok, rule3, f"{fn_name} removes {feat} (deprecated in version {dep})", uf.loc(), construct=f"removed: {sorted(removed)}", detail="" if ok else f"an upgraded kind keeps the deprecated feature {feat}", function=uf.qualname)
     for fn_name in set(keys.values()):
